@@ -6,6 +6,7 @@ pub mod c03;
 pub mod c05;
 pub mod c06;
 pub mod c07;
+pub mod c09;
 pub mod c12;
 pub mod c13;
 pub mod c14;
@@ -26,6 +27,7 @@ pub fn run(id: &str, ctx: &Ctx) -> Report {
         "C07" => c07::run(ctx),
         "C17" => c17::run(ctx),
         "C19" => c19::run(ctx),
+        "C09" => c09::run(ctx),
         "C12" => c12::run(ctx),
         "C13" => c13::run(ctx),
         "C14" => c14::run(ctx),
